@@ -20,6 +20,15 @@ CHECKS = {
  "C04": (E1, "bounded-exhaustive history enumeration over programs with untracked reads; must-re-execute monitor + reference values",
          "For every history over external-cell changes published by synthetic writes of LOW/MEDIUM/HIGH durability, input writes and requests: every answer of a function whose last execution read untracked state must have been produced by an execution in the same revision, values equal the reference reading the external cells as of that revision, and dependents obey the C03 justification monitor (equal value => reused).",
          "Bounded depth/programs. External state only changes together with a new revision (salsa's documented contract).", "5/C04"),
+ "C16": (E2, "exhaustive preemption-bounded schedule exploration (iterative context bounding) of the real code on a controlled scheduler; every schedule compared with the sequential reference; deadlock/livelock detection",
+         "Every interleaving with <= k preemptions (k=2 for 2 threads, 1 for 3 threads in quick; +1 in thorough) of reader threads on clones of one database over 8 DAG programs with shared sub-queries x several request assignments; in every schedule each request must return the reference value and all threads must terminate (a state with no enabled thread is reported as deadlock, a step bound as livelock).",
+         "SC interleavings only; scheduling points = salsa's own sync shim operations; third-party lock-free code executes atomically between points; bounded preemptions and scenarios.", "5/C16"),
+ "C17": (E2, "exhaustive preemption-bounded schedule exploration; per-schedule execution-count oracle over one and two revisions",
+         "Same harnesses as C16 plus a write between two reader phases: in every explored schedule each (function,key) body runs at most once per revision over all threads, and all values equal the reference.",
+         "As C16. Programs are acyclic, no panics/cancellation/eviction (the property's own envelope).", "5/C17"),
+ "C18": (E2, "exhaustive preemption-bounded schedule exploration of cyclic programs entered at different members by different threads; values compared with the least-fixpoint / SCC reference",
+         "2-cycles, 3-cycles, nested a<->b<->c and conditional cycles with fixpoint (default and joining cycle_fn) and fallback recovery, entered by 2-3 threads at different members, two revisions (the write reshapes the cycle); every schedule with <= k preemptions must terminate with every result equal to the C12/C13 reference.",
+         "As C16; k=1 on all harnesses and k=2 on the smallest in quick, k=2 (k=1 for 3 threads) in thorough.", "5/C18"),
 }
 
 NOT_YET = {}
@@ -57,6 +66,8 @@ def main():
         "engines": [
             {"name": "E1 histx", "path": "/verif/mc/drv/src/e1.rs", "serves_properties": [c["property_id"] for c in checks if c["engine"] == E1],
              "kind_free_text": "bounded-exhaustive enumeration of operation histories, each replayed on a fresh real salsa database; oracles: reference interpreter, fresh-database differential, log monitors"},
+            {"name": "E2 ctl", "path": "/verif/mc/ctl/src/engine.rs", "serves_properties": [c["property_id"] for c in checks if c["engine"] == E2],
+             "kind_free_text": "drop-in replacement of the shuttle crate (selected by [patch.crates-io]) running salsa's shuttle build on real OS threads under an exhaustive preemption-bounded DFS scheduler; self-validated by litmus tests in setup"},
         ],
         "checks": checks,
         "not_applicable": na,
